@@ -340,7 +340,7 @@ func ruleCDC9(w *World, r *Report) {
 // ---------- SIB-4 / cascade (C12) ----------
 
 func ruleSIB4(w *World, r *Report) {
-	r.Doc("SIB-4", "the runtime delete cascade (VDelete) and the VDEL replay repair cover the same edge directions; the cascade is registered with the engine's WaitGroup and journals through VUnlink; connection hydration schedules an unlink for dead targets", 5)
+	r.Doc("SIB-4", "the runtime delete cascade (VDelete) and the VDEL replay repair cover the same edge directions; the cascade runs inside VDelete (not in a goroutine it leaves behind) and journals through VUnlink; connection hydration schedules an unlink for dead targets", 5)
 	vd := w.Func("pkg/engine", "Engine.VDelete")
 	rp := w.Func("pkg/engine", "Engine.replayAOF")
 	gar := w.FuncObj("pkg/core", "DB.GetAllRelations")
@@ -371,22 +371,25 @@ func ruleSIB4(w *World, r *Report) {
 	r.Cond(strings.Join(live, ",") == "in,out", "SIB-4", "VDelete:cascade-directions", w.Pos(vd.Decl.Pos()), "runtime cascade unlinks incoming and outgoing edges", "the runtime delete cascade covers only {"+strings.Join(live, ",")+"}: edges in the other direction keep pointing at/from the deleted node")
 	r.Cond(strings.Join(rep, ",") == strings.Join(live, ","), "SIB-4", "replayAOF:VDEL-repair-directions", w.Pos(rp.Decl.Pos()), "replay repairs the same directions as the runtime cascade",
 		fmt.Sprintf("the VDEL replay arm repairs edges in directions {%s} while the runtime cascade (which Close cancels) covers {%s}: after VDelete + shutdown before the cascade finished, the deleted node is still returned as source/target of the unrepaired direction", strings.Join(rep, ","), strings.Join(live, ",")))
-	// cascade goroutine: wg.Add before go, journals via VUnlink
+	// the cascade runs inside VDelete, before it returns, and journals through VUnlink. (It used to run in a goroutine
+	// keyed by the external id: a re-added id showed the dead node's edges and then lost the edges created on it.)
 	fn := w.SSAFunc(vd.Obj)
 	vunlink := w.FuncObj("pkg/engine", "Engine.VUnlink")
+	inGoroutine := false
 	for _, g := range findInstrs(fn, func(in ssa.Instruction) bool { _, ok := in.(*ssa.Go); return ok }) {
 		gi := g.(*ssa.Go)
-		var body *ssa.Function
 		if mc, ok := gi.Call.Value.(*ssa.MakeClosure); ok {
-			body, _ = mc.Fn.(*ssa.Function)
+			if body, _ := mc.Fn.(*ssa.Function); body != nil && (len(findInstrs(body, callsTo(gar))) > 0 || len(findInstrs(body, callsTo(vunlink))) > 0) {
+				inGoroutine = true
+			}
 		}
-		if body == nil || len(findInstrs(body, callsTo(gar))) == 0 {
-			continue
-		}
-		found, wit := (pathQuery{fn: fn, target: func(in ssa.Instruction) bool { return in == g }, avoid: func(in ssa.Instruction) bool { return isCallTo(in, "sync", "WaitGroup.Add") }}).find(entryPos(fn))
-		r.Cond(!found, "SIB-4", "VDelete:cascade-registered-before-go", w.Pos(g.Pos()), "wg.Add precedes the go statement", "the cascade goroutine is started without a preceding wg.Add: Close does not wait for it and may close the log under it", w.witness(wit)...)
-		r.Cond(len(findInstrs(body, callsTo(vunlink))) >= 2, "SIB-4", "VDelete:cascade-journals-through-VUnlink", w.Pos(g.Pos()), "cascade unlinks through the journaling VUnlink", "the cascade no longer removes edges through VUnlink for both directions: its unlinks are not journaled and come back after restart")
 	}
+	r.Cond(!inGoroutine && len(findInstrs(fn, callsTo(vunlink))) > 0, "SIB-4", "VDelete:cascade-runs-before-return", w.Pos(vd.Decl.Pos()), "the edges of the deleted node are unlinked by VDelete itself", "the delete cascade runs in a goroutine started by VDelete, some time after VDelete has returned and keyed by the external id: an id that is re-added right after its deletion first shows the dead node's edges, and when the cascade finally runs it also removes the edges created on the re-added node")
+	nUnlink := 0
+	for _, f := range append([]*ssa.Function{fn}, closuresOf(fn)...) {
+		nUnlink += len(findInstrs(f, callsTo(vunlink)))
+	}
+	r.Cond(nUnlink >= 2, "SIB-4", "VDelete:cascade-journals-through-VUnlink", w.Pos(vd.Decl.Pos()), "cascade unlinks through the journaling VUnlink", "the cascade no longer removes edges through VUnlink for both directions: its unlinks are not journaled and come back after restart")
 	// the VDEL record itself precedes the cascade start
 	// hydration self-repair
 	gc := w.Func("pkg/engine", "Engine.VGetConnections")
